@@ -184,6 +184,10 @@ def handshake(rng, run):
     if rng.random() < 0.2:
         cfg["max_write"] = rng.choice([1, 3, 8])      # a transport that takes a few bytes per write: the password line must still go out completely
         pre += [[{"op": "deliver"}], [{"op": "deliver"}]]
+    if rng.random() < 0.12:
+        # the transport fails DURING the handshake (before the greeting, before / after the password line, before the first idle): the
+        # code paths "failed to send password" / "failed to send initial idle command" - connect fails or the failure is surfaced as the closing event
+        pre.insert(rng.randint(0, len(pre)), [{"op": "fault", "kind": rng.choice(["werr", "werr", "rerr"])}])
     return {"run": run, "cfg": cfg, "pre": pre, "batches": rand_batches(rng, nc, rng.randint(2, 8), allow_drop=False)}
 
 
